@@ -82,7 +82,9 @@ let rec p_expr () : expr =
            EMinMax (olog (if which = "min" then "lt" else "gt"), go n)
   | "F" -> let n = int_of_string (next ()) in
            let rec go i = if i = 0 then [] else let e = p_expr () in EOp (olog "format", [e]) :: go (i - 1) in
-           EOp ((if n = 1 then oseq "join" else oseq_ns "join"), go n)
+           (* ConstantFolding: one part -> the FormattedValueNode, two parts -> AddNode (not "simple" before
+              type analysis), three or more -> JoinedStrNode (class-level is_temp: "simple") *)
+           EOp ((if n = 2 then oseq_ns "join" else oseq "join"), go n)
   | "Q" -> (* call of a C function: Q <name> <nreq> <ndecl> <default,..> <-|+ recv> <npos> <nkw> pos.. (idx expr).. *)
            let fname = next () in
            let nreq = int_of_string (next ()) in let ndecl = int_of_string (next ()) in
